@@ -205,7 +205,7 @@ def shard(cases):
 
 def build_cases(quick, seed):
     lattice = [(c, k) for c in (0, 2) for k in range(L)]
-    kmax = 4 if quick else 5
+    kmax = 4 if quick else 6
     # periods: seed perturbs the numeric value only (structure identical)
     j = core.seeded_jitter(seed, "c19")
     periods = [1.0, 3.0 + 0.25 * round(4 * j) / 4, 10.5]
@@ -237,7 +237,7 @@ def build_cases(quick, seed):
 def main():
     chk = core.Check(
         PID, "exploration",
-        "all subsets (size<=4 quick / 5 thorough) of a 7-per-cycle phase lattice over cycles {0,2} x 3 periods x 3 bin "
+        "all subsets (size<=4 quick / 6 thorough) of a 7-per-cycle phase lattice over cycles {0,2} x 3 periods x 3 bin "
         "counts x input orders (all permutations for size<=3; each with sort=True and sort=False) x reference epoch {default, explicit before all "
         "observations, explicit between them} + time-reversed pattern, vs exact rational definitions; all "
         "MAP tables with N<=3 (quick) / 4 rows over {-2,-1,0,-inf}^2 per row; the period stored in day / yr / h. Non-trivial (diag): the arc across phase 1->0 is "
